@@ -11,7 +11,7 @@ CASES_PER_BATCH = 1
 HARNESS_TIMEOUT = 300
 RULE = ("a case = one history of the real SocketServer (ASan build, hooks on, seeded jitter at every hook point): concurrent or "
         "sequential mode, TCP port or Unix-socket path, N clients (0..200) arriving as a burst, a trickle or mixed with early "
-        "closes, stop(true) at a seeded moment, then destruction of the server while client threads are still alive. Judged: every "
+        "closes, or with the first accept() calls failing as under descriptor exhaustion (interposed accept, EMFILE), stop(true) at a seeded moment, then destruction of the server while client threads are still alive. Judged: every "
         "token served exactly once, every reply reaches its own client, running() false after stop(true), no serve() after it, "
         "no memory error; and the recorded hook-point trace must be accepted by the Lean model (trace inclusion). "
         "Non-trivial = history with at least one accepted connection")
@@ -29,7 +29,7 @@ def scen(rng, tier, n):
         mode = rng.choice(["conc", "conc", "seq"])
         tr = rng.choice(["tcp", "tcp", "unix", "both", "both"])
         nc = rng.choice([0, 1, 2, 3, 5, 8, 13, 20, 40] + ([80, 200] if tier == "thorough" else []))
-        pat = rng.choice(["burst", "trickle", "mixed", "slow"])
+        pat = rng.choice(["burst", "trickle", "mixed", "slow", "afail"])
         stop = rng.choice([1, 5, 20, 60, 150])
         out.append("srv %s %s %d %s %d %d" % (mode, tr, nc, pat, stop, rng.randrange(1, 1 << 30)))
     return out
